@@ -16,6 +16,7 @@ import (
 	"os"
 	"path/filepath"
 	"regexp"
+	"sort"
 	"strings"
 	"testing"
 )
@@ -100,13 +101,24 @@ func c15MainIn(cwd string, args []string, stdin string) (int, string, string) {
 func TestVerifC15(t *testing.T) {
 	r := vNewReport("C15")
 	defer r.Write(t)
-	r.Extra["rule"] = "3 workflows x 12 -ignore sets x 4 paths globs x 4 config ignore sets x {no further entry, a further matching entry, a further non-matching entry} x 4 working directories x 5 path spellings (relative, ./relative, absolute; piped through stdin with a relative / absolute -stdin-filename) through Command.Main (-oneline -no-color), complete product; oracle: unfiltered list minus diagnostics matched by a CLI pattern or by a config pattern whose glob matches the root-relative path, order preserved, exit 1 iff non-empty; plus exit-status rows (invalid flag 2; unreadable file, bad config, bad -ignore regexp, bad config regexp 3). class = (remaining diagnostics, exit status); non-trivial = something is filtered"
+	r.Extra["rule"] = "3 workflows x 12 -ignore sets x 4 paths globs x 4 config ignore sets x {no further entry, a further matching entry, a further non-matching entry} x 4 working directories x 5 path spellings (relative, ./relative, absolute; piped through stdin with a relative / absolute -stdin-filename) through Command.Main (-oneline -no-color), complete product; oracle: unfiltered list minus diagnostics matched by a CLI pattern or by a config pattern whose glob matches the root-relative path, order preserved, exit 1 iff non-empty; plus every ordered pair / triple of files of 4 different locations (repository, sibling repository, nested repository, no repository) x 3 working directories x relative / absolute spelling in one invocation; plus exit-status rows (invalid flag 2; unreadable file, bad config, bad -ignore regexp, bad config regexp 3). class = (remaining diagnostics, exit status); non-trivial = something is filtered"
 	r.Extra["assumptions"] = []string{"glob match bits are part of the scenario table (written by hand for 4 globs x 3 files)", "working directory is process-global: cases run sequentially inside each worker process"}
 	orig, _ := os.Getwd()
 	defer os.Chdir(orig)
 	base := vTempDir(t, "c15-")
 	root := filepath.Join(base, "parent", "proj")
-	files := map[string]string{"parent/proj/.git/HEAD": "x\n", "other/.keep": ""}
+	files := map[string]string{"parent/proj/.git/HEAD": "x\n", "other/.keep": "",
+		// further repositories for invocations with several files: a sibling whose configuration
+		// ignores everything, a repository nested in proj with its own configuration, a file outside
+		// any repository
+		"parent/quiet/.git/HEAD":                  "x\n",
+		"parent/quiet/.github/actionlint.yaml":    "paths:\n  '.github/workflows/*.yml':\n    ignore:\n      - '.*'\n",
+		"parent/quiet/.github/workflows/q.yml":    c15Workflows["w2.yml"],
+		"parent/proj/sub/.git/HEAD":               "x\n",
+		"parent/proj/sub/.github/actionlint.yaml": "paths:\n  '.github/workflows/s.yml':\n    ignore:\n      - 'undefined variable'\n",
+		"parent/proj/sub/.github/workflows/s.yml": c15Workflows["w2.yml"],
+		"other/loose.yml":                         c15Workflows["w2.yml"],
+	}
 	for n, c := range c15Workflows {
 		files["parent/proj/.github/workflows/"+n] = c
 	}
@@ -147,6 +159,7 @@ func TestVerifC15(t *testing.T) {
 			Stdin       string
 			Args        []string
 			Want        []string
+			Multi       []string
 			WantExit    int `json:"want_exit"`
 		}
 		jsonUnmarshal(raw, &rp)
@@ -162,6 +175,28 @@ func TestVerifC15(t *testing.T) {
 			var got []string
 			for _, d := range ds {
 				got = append(got, fmt.Sprintf("%d:%d:%s", d.line, d.col, d.msg))
+			}
+			if rp.Multi != nil {
+				var gm []string
+				_, paths := c15Parse(out)
+				for i, d := range ds {
+					frag := "other"
+					for _, f := range []string{"undefined variable", "shell name"} {
+						if strings.Contains(d.msg, f) {
+							frag = f
+						}
+					}
+					pb := "?"
+					if i < len(paths) {
+						pb = filepath.Base(paths[i])
+					}
+					gm = append(gm, pb+":"+frag)
+				}
+				sort.Strings(gm)
+				if strings.Join(gm, "|") != strings.Join(rp.Multi, "|") || code != rp.WantExit {
+					r.Violation("replay-mismatch", fmt.Sprintf("remaining %v, expected %v", gm, rp.Multi), rp)
+				}
+				continue
 			}
 			if strings.Join(got, "\n") != strings.Join(rp.Want, "\n") || code != rp.WantExit {
 				r.Violation("replay-mismatch", "output or exit status differs from the reference filter", rp)
@@ -293,6 +328,94 @@ func TestVerifC15(t *testing.T) {
 							}
 						}
 					}
+				}
+			}
+		}
+	}
+
+	// invocations with several files of different repositories: each file is filtered by the
+	// configuration of the repository that contains it, whatever comes first
+	if r.Shard == 0 {
+		writeCfg(&c15Globs[0], []string{"shell name"}, 0)
+		cfgText := ""
+		if b, err := os.ReadFile(cfgPath); err == nil {
+			cfgText = string(b)
+		}
+		type mf struct {
+			path string
+			keep []string // message fragments that remain
+		}
+		mfs := []mf{
+			{filepath.Join(root, ".github/workflows/w2.yml"), []string{"undefined variable"}},
+			{filepath.Join(base, "parent/quiet/.github/workflows/q.yml"), nil},
+			{filepath.Join(root, "sub/.github/workflows/s.yml"), []string{"shell name"}},
+			{filepath.Join(base, "other/loose.yml"), []string{"undefined variable", "shell name"}},
+		}
+		var orders [][]int
+		for a := range mfs {
+			for b := range mfs {
+				if a != b {
+					orders = append(orders, []int{a, b})
+					for c := range mfs {
+						if c != a && c != b {
+							orders = append(orders, []int{a, b, c})
+						}
+					}
+				}
+			}
+		}
+		for _, ord := range orders {
+			for _, cwdName := range []string{"parent", "unrelated", "nested"} {
+				for _, abs := range []bool{true, false} {
+					args := append([]string{}, common...)
+					var want []string
+					for _, k := range ord {
+						p := mfs[k].path
+						if !abs {
+							rel, err := filepath.Rel(cwds[cwdName], p)
+							if err != nil {
+								continue
+							}
+							p = rel
+						}
+						args = append(args, p)
+						for _, frag := range mfs[k].keep {
+							want = append(want, filepath.Base(mfs[k].path)+":"+frag)
+						}
+					}
+					code, out, errOut := c15Main(cwds[cwdName], args)
+					r.Evaluations++
+					r.Transitions++
+					r.Validated++
+					ds, paths := c15Parse(out)
+					var got []string
+					for i, d := range ds {
+						frag := "other"
+						for _, f := range []string{"undefined variable", "shell name"} {
+							if strings.Contains(d.msg, f) {
+								frag = f
+							}
+						}
+						pb := "?"
+						if i < len(paths) {
+							pb = filepath.Base(paths[i])
+						}
+						got = append(got, pb+":"+frag)
+					}
+					wantExit := 0
+					if len(want) > 0 {
+						wantExit = 1
+					}
+					sort.Strings(got)
+					ws := append([]string{}, want...)
+					sort.Strings(ws)
+					replay := map[string]any{"cwd": cwdName, "args": args, "config": cfgText, "want": nil, "want_exit": wantExit, "multi": ws}
+					if strings.Join(got, "|") != strings.Join(ws, "|") {
+						r.Violation("multi-file:first="+filepath.Base(mfs[ord[0]].path), fmt.Sprintf("cwd=%s args=%v: remaining diagnostics %v, each file filtered by its own repository's configuration leaves %v; stderr %s", cwdName, args[len(common):], got, ws, vTrunc(errOut, 200)), replay)
+					} else if code != wantExit {
+						r.Violation("multi-file:exit-status", fmt.Sprintf("cwd=%s args=%v: exit status %d, expected %d", cwdName, args[len(common):], code, wantExit), replay)
+					}
+					r.Class(fmt.Sprintf("multi-file files=%d", len(ord)), true)
 				}
 			}
 		}
